@@ -14,6 +14,12 @@
 (*   statemachine.go:  a Config entry replaces the configuration when it is  *)
 (*       applied; a DeleteSession entry is processed as QUIT (a services     *)
 (*       link takes its pseudo-clients with it) and the session is removed   *)
+(*   statemachine.go FSM.Restore (raft InstallSnapshot on a follower that    *)
+(*       fell behind, at RUN TIME):  a NEW IRCServer is built, published     *)
+(*       (setIRCServer / fsm.ReplaceState) and loaded from the snapshot; the *)
+(*       old object is orphaned with the contents it had; the process and    *)
+(*       its timer go on.  The loop therefore asks for the server at every   *)
+(*       sweep: currentIRCServer().ExpireSessions()                          *)
 (*                                                                           *)
 (* Raft is abstracted to one FIFO of committed entries (pend) applied to one *)
 (* replicated state; an entry is applied at most MaxLag after its proposal.  *)
@@ -30,6 +36,9 @@ CONSTANTS
     Exps,       \* values of SessionExpiration a Config entry may carry
     InitExp,
     MaxTime, MaxLag, MaxChanges, MaxPend, MaxConfigs,
+    MaxRestores, \* run-time restores (0: none, the instances of before the action was added)
+    StaleRef,    \* FALSE: the code (the sweep looks the server up).  TRUE: the variant that documents why - the
+                 \* loop keeps the server it saw when the process started (`server := currentIRCServer()` hoisted)
     None
 
 Sessions == Clients \cup Links \cup Pseudo
@@ -53,9 +62,16 @@ VARIABLES
     posts,      \* [Posting -> times at which the session's recent lines were proposed]
     swept,      \* [Nodes -> what n's sweep in progress found: records [s, reply, la, T, exp, prot]]
     changes, configs,
-    badDelivery \* a line was addressed to a session that had ended
+    badDelivery,\* a line was addressed to a session that had ended
+    \* ---- run-time restore
+    restores,   \* how many there were
+    orphan,     \* [Nodes -> the server object n's process started with, once a restore has orphaned it: its
+                \*  contents as they were then; None while it is still the one in use (recorded under StaleRef only)]
+    missed      \* [Nodes -> sessions n's last sweep should have found and did not] (history)
 
-vars == <<now, leader, armed, todo, pend, alive, la, exp, nicks, members, posts, swept, changes, configs, badDelivery>>
+vars == <<now, leader, armed, todo, pend, alive, la, exp, nicks, members, posts, swept, changes, configs, badDelivery,
+          restores, orphan, missed>>
+rvars == <<restores, orphan, missed>>
 state == <<alive, la, exp, nicks, members, badDelivery>>
 
 Perms(W) == {f \in [1..Cardinality(W) -> W] : \A i, j \in 1..Cardinality(W) : f[i] = f[j] => i = j}
@@ -75,6 +91,9 @@ Init ==
     /\ swept = [n \in Nodes |-> {}]
     /\ changes = 0 /\ configs = 0
     /\ badDelivery = FALSE
+    /\ restores = 0
+    /\ orphan = [n \in Nodes |-> None]
+    /\ missed = [n \in Nodes |-> {}]
 
 (* ------------------------------------------------------------------ time *)
 Advance ==
@@ -83,11 +102,17 @@ Advance ==
     /\ \A n \in Nodes : todo[n] = <<>> => now - armed[n] < Interval     \* a due timer fires before time moves on
     /\ now' = now + 1
     /\ posts' = [s \in Posting |-> {p \in posts[s] : p >= now + 1 - Window}]
-    /\ UNCHANGED <<leader, armed, todo, pend, state, swept, changes, configs>>
+    /\ UNCHANGED <<leader, armed, todo, pend, state, swept, changes, configs, rvars>>
 
 (* ------------------------------------------------- the timer loop of main() *)
-SweepSet == {s \in alive : Sweepable(Reply(s)) /\ TooIdle(la[s], now, exp)}
+\* the part of a server object ExpireSessions reads
+Current == [alive |-> alive, la |-> la, exp |-> exp]
+\* the object node n's loop scans: the one in use now (the applied prefix) - or, StaleRef, the one of process start
+Scanned(n) == IF StaleRef /\ orphan[n] # None THEN orphan[n] ELSE Current
+Idle(V) == {s \in V.alive : Sweepable(Reply(s)) /\ TooIdle(V.la[s], now, V.exp)}
+SweepSet(n) == Idle(Scanned(n))
 
+\* what is TRUE of the session at this tick (not: what the scanned object says)
 \* prot: the session's recent lines that should have protected it from this tick (none, if all is well)
 SweepRec(s) == [s |-> s, reply |-> Reply(s), la |-> la[s], T |-> now, exp |-> exp,
                 prot |-> IF s \in Posting THEN {p \in posts[s] : ProtectedBy(p, now, exp, MaxLag)} ELSE {}]
@@ -98,11 +123,12 @@ Tick(n) ==
     /\ todo[n] = <<>>
     /\ armed' = [armed EXCEPT ![n] = now]
     /\ IF n = leader
-          THEN \E order \in Perms(SweepSet) :       \* map iteration order
+          THEN \E order \in Perms(SweepSet(n)) :    \* map iteration order
                   /\ todo' = [todo EXCEPT ![n] = order]
-                  /\ swept' = [swept EXCEPT ![n] = {SweepRec(s) : s \in SweepSet}]
-          ELSE UNCHANGED <<todo, swept>>
-    /\ UNCHANGED <<now, leader, pend, state, posts, changes, configs>>
+                  /\ swept' = [swept EXCEPT ![n] = {SweepRec(s) : s \in SweepSet(n)}]
+                  /\ missed' = [missed EXCEPT ![n] = Idle(Current) \ SweepSet(n)]
+          ELSE UNCHANGED <<todo, swept, missed>>
+    /\ UNCHANGED <<now, leader, pend, state, posts, changes, configs, restores, orphan>>
 
 \* api.ApplyMessageWait(msg, 10*time.Second) for the next message of the slice: proposed
 \* only once the previous one has been applied; fails on a node that is not the leader
@@ -115,7 +141,7 @@ Propose(n) ==
           ELSE UNCHANGED pend                       \* "Apply(): node is not the leader"
     /\ todo' = [todo EXCEPT ![n] = Tail(todo[n])]
     /\ swept' = IF Len(todo[n]) = 1 THEN [swept EXCEPT ![n] = {}] ELSE swept
-    /\ UNCHANGED <<now, leader, armed, state, posts, changes, configs>>
+    /\ UNCHANGED <<now, leader, armed, state, posts, changes, configs, rvars>>
 
 (* ------------------------------------------------------------ the clients *)
 \* the model bounds the requests in flight (the sweep's own proposals are never refused)
@@ -126,20 +152,20 @@ Post(s, cmd, x) ==
     /\ s \in alive /\ leader # None /\ Room
     /\ pend' = Append(pend, [k |-> "line", s |-> s, ts |-> now, cmd |-> cmd, x |-> x])
     /\ posts' = [posts EXCEPT ![s] = @ \cup {now}]
-    /\ UNCHANGED <<now, leader, armed, todo, state, swept, changes, configs>>
+    /\ UNCHANGED <<now, leader, armed, todo, state, swept, changes, configs, rvars>>
 
 \* DELETE /robustirc/v1/<session>
 ClientDelete(s) ==
     /\ s \in alive /\ leader # None /\ Room
     /\ pend' = Append(pend, [k |-> "delete", s |-> s, ts |-> now, sweep |-> FALSE, by |-> leader, rec |-> None])
-    /\ UNCHANGED <<now, leader, armed, todo, state, posts, swept, changes, configs>>
+    /\ UNCHANGED <<now, leader, armed, todo, state, posts, swept, changes, configs, rvars>>
 
 \* POST /config
 SetConfig(e) ==
     /\ leader # None /\ Room /\ configs < MaxConfigs
     /\ pend' = Append(pend, [k |-> "config", ts |-> now, e |-> e])
     /\ configs' = configs + 1
-    /\ UNCHANGED <<now, leader, armed, todo, state, posts, swept, changes>>
+    /\ UNCHANGED <<now, leader, armed, todo, state, posts, swept, changes, rvars>>
 
 (* ------------------------------------------------- FSM.Apply of one entry *)
 EndSessions(S) ==
@@ -170,23 +196,37 @@ Apply ==
          CASE e.k = "line"   -> ApplyLine(e)
            [] e.k = "delete" -> ApplyDelete(e)
            [] e.k = "config" -> exp' = e.e /\ UNCHANGED <<alive, la, nicks, members, badDelivery>>
-    /\ UNCHANGED <<now, leader, armed, todo, posts, swept, changes, configs>>
+    /\ UNCHANGED <<now, leader, armed, todo, posts, swept, changes, configs, rvars>>
+
+(* ----------------------------------------------------- FSM.Restore at run time *)
+\* raft sends InstallSnapshot to a follower whose next entry is no longer in the leader's log.  The
+\* follower's FSM.Restore replaces the server OBJECT; the new one is loaded with the snapshot and the
+\* entries behind it, i.e. its contents are the applied prefix - the replicated state of this model,
+\* which is why nothing of `state` changes.  The object the process started with stays as it was at
+\* this moment; nothing applies entries to it any more.  armed[n] and todo[n] are untouched: the
+\* timer loop runs on (it may even be in the middle of a slice it got while n was the leader).
+Restore(n) ==
+    /\ restores < MaxRestores
+    /\ n # leader
+    /\ restores' = restores + 1
+    /\ orphan' = IF StaleRef /\ orphan[n] = None THEN [orphan EXCEPT ![n] = Current] ELSE orphan
+    /\ UNCHANGED <<now, leader, armed, todo, pend, state, posts, swept, changes, configs, missed>>
 
 (* ------------------------------------------------------------------- raft *)
 LeaderChange ==
     /\ changes < MaxChanges
     /\ \E m \in (Nodes \cup {None}) \ {leader} : leader' = m
     /\ changes' = changes + 1
-    /\ UNCHANGED <<now, armed, todo, pend, state, posts, swept, configs>>
+    /\ UNCHANGED <<now, armed, todo, pend, state, posts, swept, configs, rvars>>
 
 Elect ==
     /\ leader = None
     /\ \E m \in Nodes : leader' = m
-    /\ UNCHANGED <<now, armed, todo, pend, state, posts, swept, changes, configs>>
+    /\ UNCHANGED <<now, armed, todo, pend, state, posts, swept, changes, configs, rvars>>
 
 Next ==
     \/ Advance
-    \/ \E n \in Nodes : Tick(n) \/ Propose(n)
+    \/ \E n \in Nodes : Tick(n) \/ Propose(n) \/ Restore(n)
     \/ \E s \in Links : Post(s, "PING", None)
     \/ \E s \in Clients : Post(s, "PRIVMSG", None) \/ ClientDelete(s)
     \/ \E s \in Clients, x \in Clients : Post(s, "NICK", x)
@@ -211,6 +251,10 @@ OnlyIdleExpire == \A r \in SweepRecs : SweepRecOK(r)
 \* a session that posts more often than the expiration is never swept
 ActiveNeverExpires == \A r \in SweepRecs : r.prot = {}
 
+\* a sweep finds EVERY session that is idle for longer than the expiration in force (in the state the
+\* node's FSM has applied - here the replicated state)
+SweepsAllIdle == \A n \in Nodes : missed[n] = {}
+
 \* after a session has ended: not in the channel, its nickname free, nothing addressed to it
 ExpiredSessionGone ==
     /\ members \subseteq alive
@@ -234,4 +278,6 @@ TypeOK ==
     /\ now \in 0..MaxTime /\ leader \in Nodes \cup {None}
     /\ alive \subseteq Sessions /\ exp \in Exps \cup {InitExp}
     /\ Len(pend) <= MaxPend + Cardinality(Nodes)
+    /\ restores \in 0..MaxRestores
+    /\ \A n \in Nodes : orphan[n] = None \/ StaleRef
 =============================================================================
